@@ -26,6 +26,7 @@ def run(ctx):
     ctx.run("C12.CHECK-DOMINATES", "R-ORDER", mem.check_dominates)
     ctx.run("C12.FRESH-SOURCE", "R-WHO", mem.fresh_source)
     ctx.run("C12.CODE-HASH", "R-FLOW", mem.code_hash)
+    ctx.run("C12.GETSTATE", "R-WHO", mem.getstate_pure)
     ctx.run("C07.SIGNATURE", "R-WHO", c07.signature_fresh)
     ctx.run("C07.KINDS", "R-TABLE", c07.kinds)
     ctx.run("C07.LOCKSTEP", "R-DUAL", c07.lockstep)
